@@ -266,7 +266,7 @@ var c11Families = []c11Family{
 	{
 		name: "predicate-builtins",
 		script: func(tag string, par int) string {
-			return fmt.Sprintf("return upper(S) == \"AB\" || len(Items) > %d || (C > 0 && min(A, B) == B);", par%4)
+			return fmt.Sprintf("return upper(S) == \"AB\" || len(Items) > %d || (C > 0 && min(A, B) == B) || ((A > 1) == (B > 1) && (C > 0) != (A > 2) && (true in [B > 5, A > 0]));", par%4)
 		},
 		init: func(e *evalfilter.Eval, par int) {},
 		step: func(s int64, o *Obj, par int) (int64, bool, []int64) {
@@ -274,7 +274,7 @@ var c11Families = []c11Family{
 			if o.B < mn {
 				mn = o.B
 			}
-			return s, strings.ToUpper(o.S) == "AB" || len(o.Items) > par%4 || (o.C > 0 && mn == o.B), nil
+			return s, strings.ToUpper(o.S) == "AB" || len(o.Items) > par%4 || (o.C > 0 && mn == o.B) || ((o.A > 1) == (o.B > 1) && (o.C > 0) != (o.A > 2) && (o.B > 5 || o.A > 0)), nil
 		},
 		state0: func(par int) int64 { return 0 },
 	},
@@ -448,7 +448,7 @@ func (p *c11) runCold(c *verifsim.Chooser, st *Stats, render bool) *Outcome {
 }
 
 func (p *c11) Run(c *verifsim.Chooser, st *Stats, render bool) *Outcome {
-	cold := c.Intn(60) == 1
+	cold := c.Intn(30) == 1
 	inChild := os.Getenv("VERIF_C11_CHILD") != ""
 	if cold && !inChild {
 		return p.runCold(c, st, render)
